@@ -250,10 +250,11 @@ def instantiations(fb, name):
     return sorted(out, key=lambda x: not x[0])
 
 
-def c1_masks(fb, rep):
-    clause = 'C01.1'
+def c1_masks(fb, rep, clause='C01.1', only=None):
     n_piece = n_pawn = 0
     for gname, kind in GENS.items():
+        if only is not None and gname not in only:
+            continue
         insts = instantiations(fb, gname)
         if len(insts) != 2:
             rep.broken(clause, 'expected the <true> and <false> instantiations of %s, found %d' % (gname, len(insts)))
@@ -267,8 +268,11 @@ def c1_masks(fb, rep):
                 continue
             n_piece += a
             n_pawn += b
-    rep.floor(clause, 'piece-move emission sites', n_piece, 40)
-    rep.floor(clause, "pawn-move emission sites", n_pawn, 34)
+    if only is None:
+        rep.floor(clause, 'piece-move emission sites', n_piece, 40)
+        rep.floor(clause, "pawn-move emission sites", n_pawn, 34)
+    else:
+        rep.floor(clause, 'move emission sites of ' + ', '.join(x.split('::')[-1] for x in only), n_piece + n_pawn, 10 * len(only))
 
 
 def setup_vars(f, sites):
@@ -849,17 +853,22 @@ def c3_simple_helpers(fb, rep):
         if rep.need(clause, f, nm) is None:
             continue
         sd = single_defs(f)
+        pn = [p_['n'] for p_ in f.d.get('params', [])]
+        if len(pn) < 3:
+            rep.broken(clause, nm + ': unexpected parameter list')
+            continue
+        p_mask, p_other = (pn[2], pn[1]) if want_from == 'sq0' else (pn[1], pn[2])
         calls = [(b, i, e) for b, i, e in f.events() if e.get('k') == 'call' and cname(e) == 'MoveList::addMove']
         rep.floor(clause, nm + ' emission calls', len(calls), 1)
         for b, i, e in calls:
             frm = resolve(e['args'][0], sd)
             to = resolve(e['args'][1], sd)
-            src_ok = isinstance(to, dict) and to.get('k') == 'call' and cname(to) == 'BitBoard::extractSquare' and ctext(to['args'][0]) == 'mask'
+            src_ok = isinstance(to, dict) and to.get('k') == 'call' and cname(to) == 'BitBoard::extractSquare' and ctext(to['args'][0]) == p_mask
             if want_from == 'sq0':
-                ok = ctext(frm) == 'sq0'
+                ok = ctext(frm) == p_other
             else:
                 o = operands(frm)
-                ok = bool(o and o[0] == '+' and {ctext(resolve(o[1], sd)), ctext(resolve(o[2], sd))} == {ctext(to), 'delta'})
+                ok = bool(o and o[0] == '+' and {ctext(resolve(o[1], sd)), ctext(resolve(o[2], sd))} == {ctext(to), p_other})
             rep.ob(clause, 'K10 from/to agreement', '%s: target from the mask, origin %s, no promotion piece' % (nm.split('::')[-1], 'the given square' if want_from == 'sq0' else 'delta away'),
                    ok and src_ok and cval(e['args'][2]) == 0, R.site(f, e), 'from %s, to %s' % (ctext(frm), ctext(to)), f.sname)
 
@@ -874,7 +883,12 @@ def c3_promotions(fb, rep):
     for wtm, f in insts:
         tag = 'addPawnMovesByMask<%s>' % ('white' if wtm else 'black')
         mine = 'w' if wtm else 'b'
-        params = {p['n']: p['id'] for p in f.d.get('params', [])}
+        pl_ = f.d.get('params', [])
+        if len(pl_) < 4:
+            rep.broken(clause, tag + ': unexpected parameter list')
+            continue
+        params = {'mask': pl_[1]['id']}
+        n_delta, n_allprom = pl_[2]['n'], pl_[3]['n']
         always, under = set(), set()
         n_emit = 0
         prom_ids = set()
@@ -886,7 +900,7 @@ def c3_promotions(fb, rep):
             frm = resolve(e['args'][0], sd)
             to = resolve(e['args'][1], sd)
             o = operands(frm)
-            ok_from = bool(o and o[0] == '+' and {ctext(resolve(o[1], sd)), ctext(resolve(o[2], sd))} == {ctext(to), 'delta'})
+            ok_from = bool(o and o[0] == '+' and {ctext(resolve(o[1], sd)), ctext(resolve(o[2], sd))} == {ctext(to), n_delta})
             src_ok = isinstance(to, dict) and to.get('k') == 'call' and cname(to) == 'BitBoard::extractSquare'
             pv = cval(e['args'][2])
             src_var = strip_casts(to['args'][0]) if src_ok else None
@@ -899,7 +913,7 @@ def c3_promotions(fb, rep):
                 tag, ('%s-promotion' % LETTER[(pv - 1) % 6 + 1]) if pv else 'plain', 'promotion' if pv else 'remaining'), ok_from and src_ok and src_id == want_id, R.site(f, e),
                 'from %s, to %s' % (ctext(frm), ctext(to)), f.sname)
             guards = G.guards_of(f, set(f.blocks), b)
-            g_all = any('allPromotions' in g and not g.startswith('!') for g in guards)
+            g_all = any(g == n_allprom for g in guards)
             if pv:
                 (under if g_all else always).add((colour_of(pv), LETTER[(pv - 1) % 6 + 1]))
         rep.ob(clause, 'K11 constant agreement', '%s: queen and knight promotions always, rook and bishop under allPromotions, all of the mover\'s colour' % tag,
@@ -927,8 +941,8 @@ def c3_promotions(fb, rep):
                 detail = 'no straight-line definition'
                 break
 
-            def build(sem, t, _pm=pm, _rest=rest):
-                m = sem.col('var:mask', t)
+            def build(sem, t, _pm=pm, _rest=rest, _mn=pl_[1]['n']):
+                m = sem.col('var:' + _mn, t)
                 r18 = sem.ones if t // 8 in (0, 7) else 0
                 return [('prom@%d' % t, sem.ev(_pm, t), m & r18), ('prom-c@%d' % t, m & r18, sem.ev(_pm, t)),
                         ('rest@%d' % t, sem.ev(_rest, t), m & (r18 ^ sem.ones)), ('rest-c@%d' % t, m & (r18 ^ sem.ones), sem.ev(_rest, t))]
@@ -1381,17 +1395,27 @@ def c5_gives_check(fb, rep):
         for L in sorted(labels):
             for dx in (1, -1):
                 F = 28
-                env = {'Move::from()': F, 'epSq': F + dx, ctext(strip_casts(e['args'][2])): L}
                 dn = ctext(strip_casts(e['args'][2]))
-                near = cval2(subst_defs(e['args'][1], sd, keep=('epSq', dn)), env)
+                # the file-difference variable (to.getX() - from.getX()) keeps its name; everything else is inlined
+                dxn = None
+                for vid, init in sd.items():
+                    it_ = strip_casts(init)
+                    if isinstance(it_, dict) and it_.get('k') == 'bin' and it_.get('op') == '-' and all(
+                            any(c_.get('k') == 'call' and cname(c_) == 'Square::getX' for c_ in walk(x_)) for x_ in (it_['l'], it_['r'])):
+                        dxn = next((v_['n'] for _, _, ev_ in f.events() if ev_.get('k') == 'decl' for v_ in ev_['vars'] if v_['id'] == vid), None)
+                keep_ = tuple(x_ for x_ in (dxn, dn) if x_)
+                env = {'Move::from()': F, dn: L}
+                if dxn:
+                    env[dxn] = dx
+                near = cval2(subst_defs(e['args'][1], sd, keep=keep_), env)
                 want_near = max(F, F + dx) if L > 0 else min(F, F + dx)
                 dirv = cval2(e['args'][2], env)
                 ok = near == want_near and dirv == L
                 detail = 'from=%d ep-pawn=%d king direction %+d: scan towards the king starts at %s (wanted %d)' % (F, F + dx, L, near, want_near)
                 okf = bool(far)
                 for b2, i2, e2 in far:
-                    fs = cval2(subst_defs(e2['args'][1], sd, keep=('epSq', dn)), env)
-                    fd = cval2(subst_defs(e2['args'][2], sd, keep=('epSq', dn)), env)
+                    fs = cval2(subst_defs(e2['args'][1], sd, keep=keep_), env)
+                    fd = cval2(subst_defs(e2['args'][2], sd, keep=keep_), env)
                     want_far = min(F, F + dx) if L > 0 else max(F, F + dx)
                     okf = okf and fs == want_far and fd == -L
                     detail += '; scan away from the king starts at %s direction %s (wanted %d, %+d)' % (fs, fd, want_far, -L)
@@ -1617,3 +1641,96 @@ def c6_tables(fb, rep):
     rep.floor(clause, 'Square(file, rank) constructions in the table initialiser', n or 0, 10)
     m = leaper_tables(fb, rep, clause)
     rep.floor(clause, 'non-sliding attack tables filled by shift formulas', m, 4)
+    k = ep_tables(fb, rep, clause)
+    rep.floor(clause, 'en-passant mask tables', k, 2)
+
+
+def _ceval(t, env):
+    """Concrete value of a tree of the table initialiser (ints, Square(file, rank) = file + 8*rank, shifts,
+    bit operations); env maps var ids to ints.  Raises Unsupported."""
+    t = strip_casts(t)
+    if not isinstance(t, dict):
+        raise Unsupported('no tree')
+    if 'cv' in t:
+        return t['cv']
+    k = t.get('k')
+    if k == 'var' and t.get('id') in env:
+        return env[t['id']]
+    if k == 'ctor' and t.get('cls') == 'Square' and len(t.get('args', [])) == 2:
+        return _ceval(t['args'][0], env) + 8 * _ceval(t['args'][1], env)
+    if k == 'ctor' and len(t.get('args', [])) == 1:
+        return _ceval(t['args'][0], env)
+    if k == 'un' and t.get('op') in ('~', '-'):
+        v = _ceval(t['e'], env)
+        return (~v) & B.M64 if t['op'] == '~' else -v
+    o = operands(t)
+    if o:
+        a, b = _ceval(o[1], env), _ceval(o[2], env)
+        op = o[0]
+        if op in ('<<', '>>') and not 0 <= b < 64:
+            raise Unsupported('shift by %d' % b)
+        fn = {'+': lambda: a + b, '-': lambda: a - b, '*': lambda: a * b, '|': lambda: a | b, '&': lambda: a & b, '^': lambda: a ^ b,
+              '<<': lambda: (a << b) & B.M64, '>>': lambda: a >> b}.get(op)
+        if fn is None:
+            raise Unsupported('operator ' + str(op))
+        return fn()
+    raise Unsupported('node %s: %s' % (k, show(t, 80)))
+
+
+def ep_tables(fb, rep, clause):
+    """K12 finite evaluation: for each of the 8 files the value stored into epMaskW / epMaskB is exactly the set
+    of squares next to that file on the rank where a pawn that can capture en passant stands (4th rank for a
+    white double push, 5th for a black one) - however the initialiser computes it (explicit squares under
+    guards, or shifts).  makeMove records an en-passant square exactly when this mask meets an enemy pawn."""
+    f = fb.find1('BitBoard::staticInitialize')
+    if rep.need(clause, f, 'BitBoard::staticInitialize') is None:
+        return 0
+    n = 0
+    for b, i, e in f.events():
+        if e.get('k') != 'asg' or e.get('op') != '=':
+            continue
+        l = strip_casts(e.get('l'))
+        if not (isinstance(l, dict) and l.get('k') == 'idx' and any(x.get('q') in ('BitBoard::epMaskW', 'BitBoard::epMaskB') for x in walk(l))):
+            continue
+        tbl = next(x.get('q') for x in walk(l) if x.get('q') in ('BitBoard::epMaskW', 'BitBoard::epMaskB'))
+        ivars = [x for x in walk(l.get('i') or {}) if x.get('k') == 'var' and 'id' in x] or \
+                [x for x in walk(l) if x.get('k') == 'var' and 'id' in x and x.get('vk') == 'local']
+        if len({x['id'] for x in ivars}) != 1:
+            rep.broken(clause, 'index of %s is not a single loop variable' % tbl)
+            continue
+        fid = ivars[0]['id']
+        n += 1
+        rank = 3 if tbl.endswith('W') else 4
+
+        def fact_of(atom, _fid=fid):
+            a = strip_casts(atom)
+            if isinstance(a, dict) and a.get('k') == 'bin' and a.get('op') in ('<', '<=', '>', '>=', '==', '!='):
+                lv, rv = strip_casts(a['l']), strip_casts(a['r'])
+                if isinstance(lv, dict) and lv.get('id') == _fid and isinstance(rv, dict) and 'cv' in rv:
+                    return 'f %s %d' % (a['op'], rv['cv'])
+            return None
+        track = B.relevant_ids(f, B.var_ids(e.get('r')), stop={fid}) - {fid}
+        try:
+            stores = B.sym_stores(f, (b, i), track, fact_of=fact_of)
+        except Unsupported as ex:
+            rep.broken(clause, '%s: %s' % (tbl, ex))
+            continue
+        bad = []
+        for fv in range(8):
+            want = 0
+            for nf in (fv - 1, fv + 1):
+                if 0 <= nf <= 7:
+                    want |= 1 << (nf + 8 * rank)
+            vals = set()
+            for store, facts in stores:
+                if not all(eval('%d %s' % (fv, k_[2:])) == v_ for k_, v_ in facts.items()):
+                    continue
+                try:
+                    vals.add(_ceval(subst(e['r'], store), {fid: fv}))
+                except Unsupported as ex:
+                    vals.add('? ' + str(ex))
+            if vals != {want}:
+                bad.append('file %d: %s, wanted %#x' % (fv, sorted(('%#x' % v) if isinstance(v, int) else v for v in vals), want))
+        rep.ob(clause, 'K12 table contents', 'staticInitialize: %s[file] is exactly the two (at the edge: one) squares beside that file on rank %d, for all 8 files' % (tbl.split('::')[-1], rank + 1),
+               not bad, R.site(f, e), '; '.join(bad[:3]), f.sname)
+    return n
